@@ -231,7 +231,8 @@ def tagDoc (doc : Str) : List TLine := tagLines .top (mdLines (normaliseCrLf doc
 def scanBlocks (doc : Str) : List MdBlock := assemble 0 1 (tagDoc doc)
 
 -- ---------------------------------------------------------------- the sub-language D
-/-- after the indentation: a list marker (`- + *`, or digits and `.`/`)`) followed by white space or the end -/
+/-- after the indentation: a list marker (`- + *`, or digits and `.`/`)`) followed by white space or the end; marko's pattern is `\d{1,9}`,
+    i.e. any Unicode decimal digit (Arabic-Indic, full-width …), not only ASCII -/
 def startsListMarker (rest : Str) : Bool :=
   let follow (r : Str) : Bool := match r with
     | [] => true
@@ -241,7 +242,7 @@ def startsListMarker (rest : Str) : Bool :=
   | c :: r =>
     if c == '-' || c == '+' || c == '*' then follow r
     else
-      let ds := rest.takeWhile isDigit
+      let ds := rest.takeWhile fun c => inTable Gen.reDigitRanges c.toNat
       if ds.isEmpty then false
       else match rest.drop ds.length with
         | d :: r' => (d == '.' || d == ')') && follow r'
